@@ -93,6 +93,9 @@ func (fr *Frame) call(in ssa.Instruction, c *ssa.CallCommon, st *State, g string
 	if key == "sort.Slice" && fr.sortSliceModel(c, st, g, pos) {
 		return nil
 	}
+	if key == "slices.SortFunc" && fr.sortFuncModel(c, st, g, pos) { // ext_c07.go
+		return nil
+	}
 	if key == "math.Abs" && spec == nil && len(args) == 1 {
 		// trusted model: |x| on the reals (finite float64 values are reals; Abs is exact)
 		fc.assumes["trusted model: math.Abs(x) == |x| (exact on finite float64)"] = true
@@ -302,7 +305,7 @@ func (fr *Frame) applySpecClosure(spec *FuncSpec, key string, sig *types.Signatu
 		if label == "" {
 			label = fmt.Sprint(i)
 		}
-		if fr.trustsPre(key) {
+		if fr.trustsPre(key) || fr.trustsPreLabel(key, cl.Label) { // trustsPreLabel: `trustpre callee[label]` (ext_c07.go)
 			fc.assumes["precondition of "+key+" assumed at its call sites in "+funcKey(fr.fn)+" (trustpre): "+cl.Text] = true
 		} else if preProvedByOtherCheck(cl, fc) { // ext_propfilter.go
 			fc.assumes["precondition of "+key+" at its call sites in "+funcKey(fc.root)+" is an obligation of check "+strings.Join(cl.Props, ",")+", not of this run: "+cl.Text] = true
